@@ -18,6 +18,7 @@ RULE = ("cases = (recurrence description as in C12, probe points): members "
         "get_first_after (recurrences with a start point) and indices 0..n "
         "to __getitem__; non-trivial = a probe that lies on or between "
         "members; distinct by (description, probe fields)")
+RUN_REPO_SUITE = True   # thorough tier: repo tests under these monitors
 DECIDING = ["is_valid.post", "getitem.post", "neighbour.post",
             "first_after.post"]
 MIN_EVALS = {"is_valid.post": 4000, "getitem.post": 1500,
